@@ -26,10 +26,23 @@ const rtName = "verifsimrt_rt"
 const rtPath = "verifsimrt"
 
 type stats struct {
-	Files, SyncImports, GoStmts, Recvs, Selects, Sends, Renames int
+	Files, SyncImports, GoStmts, Recvs, Selects, Sends, Renames, MapRanges int
 }
 
 var st stats
+
+// mapRanges: expressions (as printed) whose range statements in
+// pkg/blobstore/configuration are rewritten to a tape-drawn key order.
+var mapRanges = map[string]bool{
+	"backend.Sharding.Shards":                      true,
+	"backend.Demultiplexing.InstanceNamePrefixes": true,
+}
+
+func exprString(fset *token.FileSet, e ast.Expr) string {
+	var b bytes.Buffer
+	printer.Fprint(&b, fset, e)
+	return b.String()
+}
 
 func fatal(format string, a ...interface{}) {
 	fmt.Fprintf(os.Stderr, "xform: "+format+"\n", a...)
@@ -209,6 +222,30 @@ func (r *rewriter) rewriteStmt(s ast.Stmt) ast.Stmt {
 	case *ast.RangeStmt:
 		v.X = r.rewriteExpr(v.X)
 		r.rewriteBlock(v.Body)
+		// S6: ranging over a configuration map whose order decides the order
+		// of backends / goroutines: the order is drawn from the tape
+		if mapRanges[exprString(r.fset, v.X)] && strings.Contains(r.file, "pkg/blobstore/configuration/") {
+			if v.Tok != token.DEFINE {
+				fatal("%s: unsupported map range form at %s", r.file, r.fset.Position(v.Pos()))
+			}
+			keyIdent, _ := v.Key.(*ast.Ident)
+			if keyIdent == nil || keyIdent.Name == "_" {
+				keyIdent = ast.NewIdent("verifsimrt_key")
+			}
+			if val, ok := v.Value.(*ast.Ident); ok && val.Name != "_" {
+				assign := &ast.AssignStmt{Lhs: []ast.Expr{ast.NewIdent(val.Name)}, Tok: token.DEFINE, Rhs: []ast.Expr{&ast.IndexExpr{X: v.X, Index: ast.NewIdent(keyIdent.Name)}}}
+				v.Body.List = append([]ast.Stmt{assign}, v.Body.List...)
+			} else if v.Value != nil {
+				if id, ok := v.Value.(*ast.Ident); !ok || id.Name != "_" {
+					fatal("%s: unsupported map range value at %s", r.file, r.fset.Position(v.Pos()))
+				}
+			}
+			v.Key = ast.NewIdent("_")
+			v.Value = ast.NewIdent(keyIdent.Name)
+			v.X = rtCall("MapKeys", v.X)
+			st.MapRanges++
+			r.changed, r.needRT = true, true
+		}
 	case *ast.SwitchStmt:
 		v.Init = r.rewriteStmt(v.Init)
 		v.Tag = r.rewriteExpr(v.Tag)
